@@ -55,6 +55,17 @@ EXPORT void* spqlios_keep_or_free(void* ptr, void* ptr2);
 #define CPU_SUPPORTS(xxxx) 0
 #endif
 
+#ifdef SPQLIOS_VERIF
+/* verification hook (guard SPQLIOS_VERIF): lets a test harness hide CPU features the host has,
+ * so that the generic-C dispatch configuration can be created on an AVX host. Default: nothing hidden. */
+EXPORT int spqlios_verif_cpu_allows(const char* feature);
+EXPORT void spqlios_verif_set_cpu_mask(unsigned hidden_features);
+#ifdef __x86_64__
+#undef CPU_SUPPORTS
+#define CPU_SUPPORTS(xxxx) (__builtin_cpu_supports(xxxx) && spqlios_verif_cpu_allows(xxxx))
+#endif
+#endif
+
 /** @brief returns the n bits of value in reversed order */
 EXPORT uint32_t revbits(uint32_t nbits, uint32_t value);
 
